@@ -217,6 +217,148 @@ AccountStep(ln) ==
     /\ NoCalls(ln.st)
     /\ PFinish(S, ln)
 
+-----------------------------------------------------------------------------
+(* Bursts: several requests issued concurrently (C10).  Only the replies and  *)
+(* the final projection are observable, so each request is *evaluated* against *)
+(* a state (Ev*: is this reply what the atomic endpoint prescribes in that     *)
+(* state, and what is the next state), and the burst is accepted iff some      *)
+(* one-at-a-time order of the requests explains all replies, all instructions  *)
+(* sent to agents and the final state.                                         *)
+EvRefused(P, a, r) ==
+    [ok |-> ~MustAccept(P, a) /\ (a.alter \in SameSig => NonceDecisionOK(P, a.ident, a.nonce, FALSE)),
+     st |-> [P EXCEPT !.burn = Put(P.burn, a.ident, Get(P.burn, a.ident, {}) \cup {a.nonce})], calls |-> {}]
+
+AuthGood(P, a) == a.alter \in SameSig /\ NonceDecisionOK(P, a.ident, a.nonce, TRUE)
+
+EvUpdate(P, a0, r, fin) ==
+    LET a == [a0 EXCEPT !.peers = ToSet(a0.peers)]  P1 == Accepted1(P, a) IN
+    IF Refused(r) THEN EvRefused(P, a, r)
+    ELSE IF ~Has(P1.node, a.ident) THEN [ok |-> AuthGood(P, a) /\ ~r.ok /\ r.err = "unregistered", st |-> P1, calls |-> {}]
+    ELSE LET \* a cut-off reply does not carry the declared set: it is read off the final tracked
+             \* set (one request per identity in a burst, so nothing else changes that set)
+             dead == IF r.ok THEN ToSet(r.val.invalid)
+                     ELSE IF Has(fin.peers, a.ident)
+                          THEN (Tracked(P1, a.ident) \cup {p \in a.peers : Has(P1.node, p)}) \ ToSet(fin.peers[a.ident])
+                          ELSE DeadMust(P1, a.ident, a.peers)
+             low  == ~r.ok /\ r.err = "lowbalance"
+             e    == UpdateF(P1, a, dead, low)
+         \* The keep-alive is a sequence of store transactions, not one: the balance it reads
+         \* back for its reply (and for the cut-off decision) may already contain part of a
+         \* concurrent request's effect.  What must be serialisable are the *resulting*
+         \* balances, peer sets and nonce decisions, so the reply balance and the cut-off
+         \* decision are taken as logged here (they are decided sequentially under C02/C03).
+         IN [ok |-> /\ AuthGood(P, a) /\ (r.ok \/ low)
+                    /\ DeadOK(P1, a.ident, a.peers, dead)
+                    /\ low => (P.cfg.hasmin /\ ~P1.node[a.ident].host)
+                    /\ r.ok => /\ r.val.balance.account = e.res.val.balance.account
+                               /\ ToSet(r.val.active) = {e.st.node[p].uri : p \in e.res.val.active},
+             st |-> e.st, calls |-> e.calls]
+
+EvConnect(P, a, r) ==
+    LET P1 == Accepted1(P, a) IN
+    IF Refused(r) THEN EvRefused(P, a, r)
+    ELSE LET norm == NormURI(P1, a)
+             uri  == IF ~r.ok /\ r.err = "uri" THEN "" ELSE norm
+             low  == ~r.ok /\ r.err = "lowbalance"
+             e    == ConnectF(P1, a, uri, low)
+         IN [ok |-> /\ AuthGood(P, a) /\ (a.full => ((~r.ok /\ r.err = "uri") = (norm = "")))
+                    /\ low => (P.cfg.hasmin /\ ~a.full)
+                    /\ SameRes(r, e.res),
+             st |-> e.st, calls |-> {}]
+
+EvPeer(P, a, r, allcalls) ==
+    LET P1 == Accepted1(P, a) IN
+    IF Refused(r) THEN EvRefused(P, a, r)
+    ELSE LET called == {h \in DOMAIN P1.reg : <<P1.reg[h], "vipnode_whitelist", a.ident>> \in allcalls}
+             got    == IF r.ok THEN ToSet(r.val) ELSE {}
+             e      == PeerF(P1, a, called)
+         IN [ok |-> /\ AuthGood(P, a) /\ CalledOK(P1, a, called)
+                    /\ r.ok = e.res.ok /\ (r.ok => got = e.res.val)
+                    /\ ~r.ok => r.err \in (IF e.res.err = "nohosts" THEN {"nohosts", "hosterrors"} ELSE {e.res.err}),
+             st |-> e.st, calls |-> e.calls]
+
+EvAddNode(P, a, r) ==
+    LET P1 == Accepted1(P, a)  e == AddNodeF(P1, a) IN
+    IF Refused(r) THEN EvRefused(P, a, r)
+    ELSE [ok |-> AuthGood(P, a) /\ SameRes(r, e.res), st |-> e.st, calls |-> {}]
+
+EvWithdraw(P, a, r) ==
+    LET P1 == Accepted1(P, a)
+        outcome == IF r.ok THEN "ok" ELSE IF r.err = "wmin" THEN "wmin" ELSE "settle"
+        e == WithdrawF(P1, a, outcome) IN
+    IF Refused(r) THEN EvRefused(P, a, r)
+    ELSE [ok |-> AuthGood(P, a) /\ outcome = WithdrawOutcome(P1, a) /\ SameRes(r, e.res), st |-> e.st, calls |-> {}]
+
+\* store operations issued directly (each is one atomic step of the store contract)
+EvStore(P, q, r) ==
+    LET one(e) == [ok |-> SameRes(r, e.res), st |-> e.st, calls |-> {}] IN
+    CASE q.op = "AddAccountBalance" -> one(AddAccountBalanceF(P, q.acct, q.amt))
+      [] q.op = "AddNodeBalance"    -> one(AddNodeBalanceF(P, q.id, q.amt))
+      [] q.op = "AddAccountNode"    -> one(AddAccountNodeF(P, q.acct, q.id))
+      [] q.op = "SetNode"           -> one(SetNodeF(P, q.id, [host |-> q.host, kind |-> q.kind, seen |-> P.now, block |-> q.block,
+                                                             uri |-> q.uri, payout |-> q.payout]))
+      [] q.op = "UpdateNodePeers"   ->
+           IF ~Has(P.node, q.id) THEN [ok |-> ~r.ok /\ r.err = "unregistered", st |-> P, calls |-> {}]
+           ELSE LET dead == IF r.ok THEN ToSet(r.val) ELSE {} IN
+                [ok |-> r.ok /\ DeadOK(P, q.id, ToSet(q.peers), dead),
+                 st |-> UpdateNodePeersF(P, q.id, ToSet(q.peers), q.block, dead).st, calls |-> {}]
+      [] q.op = "Nonce"             ->
+           [ok |-> NonceDecisionOK(P, q.ident, q.v, r.ok), st |-> CheckAndSaveNonceF(P, q.ident, q.v, r.ok).st, calls |-> {}]
+
+EvReq(P, q, r, allcalls, fin) ==
+    CASE q.op \in {"AddAccountBalance", "AddNodeBalance", "AddAccountNode", "SetNode", "UpdateNodePeers", "Nonce"} -> EvStore(P, q, r)
+      [] q.op = "Update"   -> EvUpdate(P, q, r, fin)
+      [] q.op = "Connect"  -> EvConnect(P, q, r)
+      [] q.op = "Peer"     -> EvPeer(P, q, r, allcalls)
+      [] q.op = "AddNode"  -> EvAddNode(P, q, r)
+      [] q.op = "Withdraw" -> EvWithdraw(P, q, r)
+
+RECURSIVE RunSerial(_, _, _, _, _, _, _)
+RunSerial(P, reqs, rs, order, i, allcalls, fin) ==
+    IF i > Len(order) THEN [ok |-> TRUE, st |-> P, calls |-> {}]
+    ELSE LET e == EvReq(P, reqs[order[i]], rs[order[i]], allcalls, fin) IN
+         IF ~e.ok THEN [ok |-> (Debug => PrintT(<<"BURST at line", l, "order", order, "fails at request", order[i], reqs[order[i]].op>>)) /\ FALSE,
+                        st |-> P, calls |-> {}]
+         ELSE LET rest == RunSerial(e.st, reqs, rs, order, i + 1, allcalls, fin) IN
+              [ok |-> rest.ok, st |-> rest.st, calls |-> e.calls \cup rest.calls]
+
+Orders(n) == {f \in [1..n -> 1..n] : \A i, j \in 1..n : i # j => f[i] # f[j]}
+
+\* weaker checks that do not need exact amounts (real-clock runs under the race detector)
+BurstNonceOK(reqs, rs) ==      \* of racing copies of one signed request / one nonce at most one is honoured
+    \A i, j \in DOMAIN reqs :
+       (i # j /\ "ident" \in DOMAIN reqs[i] /\ "ident" \in DOMAIN reqs[j] /\ reqs[i].ident = reqs[j].ident) =>
+          IF reqs[i].op = "Nonce" /\ reqs[j].op = "Nonce"
+          THEN (reqs[i].v = reqs[j].v) => ~(rs[i].ok /\ rs[j].ok)
+          ELSE (reqs[i].op # "Nonce" /\ reqs[j].op # "Nonce" /\ reqs[i].nonce = reqs[j].nonce
+                /\ reqs[i].alter \in SameSig /\ reqs[j].alter \in SameSig)
+                  => (Refused(rs[i]) \/ Refused(rs[j]))
+
+BurstPaidOK(P, ln) ==          \* racing withdrawals never pay more than the wallet held
+    LET prev == Trace[l - 1].st
+        \* trial credit that account linking inside the same burst may move into a wallet
+        trials == SumOver([n \in DOMAIN prev.bal |-> IF n \notin DOMAIN prev.link /\ prev.bal[n].credit > 0
+                                                    THEN prev.bal[n].credit ELSE 0], DOMAIN prev.bal)
+    IN \A w \in DOMAIN ln.st.paid :
+          LET owed == prev.acct[w].credit + prev.dep[w] + trials IN
+          ln.st.paid[w] - prev.paid[w] <= (IF owed > 0 THEN owed ELSE 0)
+
+BurstStep(ln) ==
+    LET reqs == ln.a.reqs  rs == ln.r.val  n == Len(reqs)  allcalls == CallSet(ln.st) IN
+    /\ ln.op = "Burst"
+    /\ A("nonce", "racing copies of one request were honoured more than once", BurstNonceOK(reqs, rs))
+    /\ A("withdraw", "racing withdrawals paid more than the wallet held", F("serial") \/ BurstPaidOK(S, ln))
+    /\ IF F("serial")
+       THEN \E order \in Orders(n) :
+               LET run == RunSerial(S, reqs, rs, order, 1, allcalls, ln.st) IN
+               /\ run.ok
+               /\ run.calls = allcalls /\ Len(ln.st.calls) = Cardinality(allcalls)
+               /\ PFinish(run.st, ln)
+       ELSE \* no exact amounts (real clock): the ledger total may only move by the direct store credits of the burst
+            LET delta == SumOver([i \in DOMAIN reqs |-> IF reqs[i].op \in {"AddAccountBalance", "AddNodeBalance"} /\ rs[i].ok
+                                                        THEN reqs[i].amt ELSE 0], DOMAIN reqs)
+            IN PFinish([S EXCEPT !.trial = Put(S.trial, "(burst credits)", delta)], ln)
+
 PoolStep(ln) ==
   LET a == ln.a IN
   CASE ln.op = "Open"       -> NoCalls(ln.st) /\ PFinish(OpenF(S, a.conn, a.mode, a.host).st, ln)
@@ -245,6 +387,7 @@ PTNext == /\ l <= Len(Trace)
           /\ LET ln == Trace[l] IN
              /\ ln.bad = ""
              /\ \/ PResetStep(ln)
+                \/ BurstStep(ln)
                 \/ IsStoreOp(ln.op) /\ PStoreStep(ln)
                 \/ IsPoolOp(ln.op) /\ PoolStep(ln)
 
